@@ -19,6 +19,10 @@ STRENGTHENED = {
     "C10": "caught by the oracle's mode table only: added multi-parameter DECSET/DECRST with unknown modes in between (idiom 81, modes family)",
     "C11": "caught by the oracle's built-in DECSC scenario only: added idiom 82 (DECSC with origin mode/region/pen, region changed so that it excludes the saved row, DECRC) to the alt and stream families",
     "C11b": "1 disagreement in 1500 at first: idiom 69 got a wide-over-wide variant and the alt family draws wrap idioms while the alternate grid is active",
+    "C18c": "MISSED by the first run (sub-parameter on the operation parameter of CSI 8 t was never generated): `param()` now emits sub-parameters for every CSI, the csi family and op 53 generate the window-operation forms `8:x;r;c`, `8;r:x;c:y`",
+    "C04c": "1 disagreement in 2500 at first: added idiom 85 (CR/LF/BS/TAB inside an open CSI/OSC/DCS followed by a printable continuation) and a chunk mode that cuts right behind every CR/LF",
+    "C12c": "4 disagreements at first: the sb family got a step 'enough history, scrolled-back view, SU by >= rows lines'",
+    "C01c": "4 disagreements at first: added idiom 84 (erase runs of blank cells that differ only in text-mode bits)",
     "C18b": "caught by the oracle's token table only: added idiom 83 (ESC with intermediates and every kind of final byte)",
 }
 res = {}
@@ -36,7 +40,7 @@ out.append("## 12. Seeded changes: which check catches which change\n")
 out.append("Each row is one change written by an independent worker who saw only the property text and a scratch\n"
            "worktree (never `/verif`); each compiles, passes the unedited 67-test suite + doctest, and breaks the property\n"
            "on a concrete input (the worker's demonstration test, re-run by us with and without the change). The\n"
-           "changes live in `seeded/<id>/` (`patch.diff`, `demo.rs`, `meta.json`) and are never committed to `/repo`.\n"
+           "changes live in `seeded/<id>/` (`patch.diff`, `seeded_demo.rs`, `meta.json`; suffix b = second round, c = third round, whose workers were told what the first two changes were and asked for a different function and mechanism) and are never committed to `/repo`.\n"
            "`tools/run_seeded.sh` applies one, runs `./check <property> --tier quick` (seed 1), undoes it. Columns:\n"
            "*dis* = cases where model and implementation differ, *orc* = cases where the implementation-level oracle\n"
            "fails; *mechanism* = what the first reported replay rests on (`correspondence+oracle(k)`: the states/bytes\n"
